@@ -131,6 +131,7 @@ class ImplRunner:
         self.lay = (sd["bounds"][0], sd["bounds"][1], sd["nos"], sd["nsrv"], sd["nproc"])
         self.modes = modes
         self.held = {}
+        self.kept = []
         self.arg_style = arg_style
         self.shim = Shim()
         self.env = NASimEnv(scenario, fully_obs=bool(modes[0]), flat_actions=bool(modes[1]),
@@ -160,6 +161,12 @@ class ImplRunner:
         return make_action(x[1], self.names, None, None)
 
     def stepout(self, next_state, obs_arr, rew, done, info, used):
+        # arrays handed out earlier are the caller's: later calls must not write into them
+        for arr_, copy_ in self.kept:
+            if not np.array_equal(arr_, copy_):
+                raise CallerArrayModified("an observation array returned by an earlier call has changed since")
+        if isinstance(obs_arr, np.ndarray):
+            self.kept = (self.kept + [(obs_arr, obs_arr.copy())])[-3:]
         out = [state_wire(next_state.tensor, self.lay), mat_wire(obs_arr), fx(rew), int(bool(done)),
                result_wire(info, self.names, self.addrs), used]
         # the info dict is the caller's: what the caller does with it afterwards (here: empty every container in
